@@ -516,7 +516,16 @@ func (uconn *UConn) ApplyConfig() error {
 	// RemoveSNIExtension). ConnectionState().ServerName reports it.
 	if uconn.HandshakeState.Hello != nil {
 		uconn.HandshakeState.Hello.ServerName = ""
+		// Likewise the offered sets the handshake later checks the server's
+		// choices against must be exactly what uconn.Extensions will put on the
+		// wire. Forget what an extension that has since been removed (or that the
+		// spec never had, where the field still holds the crypto/tls default)
+		// wrote here; every extension that is present sets its field again below.
+		uconn.HandshakeState.Hello.AlpnProtocols = nil
+		uconn.HandshakeState.Hello.SupportedCurves = nil
+		uconn.HandshakeState.Hello.KeyShares = nil
 	}
+	uconn.certCompressionAlgs = nil
 	for _, ext := range uconn.Extensions {
 		err := ext.writeToUConn(uconn)
 		if err != nil {
